@@ -461,6 +461,11 @@
         (posse-advance! searchers1 epsilons state (make-start-searcher rx str)
                         str i start end)
         (posse-clear! epsilons)))
+      ;; When matching the whole string an accept state reached before
+      ;; the end is of no use, and a non-greedy pattern would prefer
+      ;; it over the one at the end.
+      (if (and (not search?) (string-cursor<? i end))
+          (regexp-state-accept-set! state #f))
       (cond
        ((or (string-cursor>=? i end)
             (and search?
